@@ -28,8 +28,10 @@ func init() {
 		{"FL", []string{"FL-fill-guard", "FL-suffix-once"}},
 		{"BN", []string{"PN-*", "BN-*", "LP-*"}},
 		{"LX", []string{"LX-enum", "LX-len"}},
-	}, map[string]int{"SM-panic": 19, "SM-deref": 19, "PN-panic": 4, "LP-loop": 10, "BN-neg": 40},
-		"No reachable explicit panic, no out-of-range index or nil dereference in the scanner for any line sequence (typestate facts over the extracted automaton: SM-panic, SM-deref, RX-groups), every explicit panic site classified (PN), every index/slice operand built from arithmetic or a search result proved non-negative by an interval analysis with dominating guards (BN-neg) plus the listed upper-bound idioms (BN-idiom/array), every loop counted or matched against its structural termination argument (LP), progress of the scan and CLI loops (SM-progress, FL-suffix-once). Not decided: reader cursor upper bounds (relational), general upper bounds, linear time.",
+		{"EQ", []string{"EQ-key", "EQ-lift"}},
+		{"AG", []string{"AG-merge"}},
+	}, map[string]int{"SM-panic": 19, "SM-deref": 19, "PN-panic": 4, "LP-loop": 10, "BN-neg": 40, "EQ-lift": 6},
+		"No reachable explicit panic, no out-of-range index or nil dereference in the scanner for any line sequence (typestate facts over the extracted automaton: SM-panic, SM-deref, RX-groups), every explicit panic site classified (PN), every index/slice operand built from arithmetic or a search result proved non-negative by an interval analysis with dominating guards (BN-neg) plus the listed upper-bound idioms (BN-idiom/array), every loop counted or matched against its structural termination argument (LP), progress of the scan and CLI loops (SM-progress, FL-suffix-once); the accesses merge makes to the other operand with the index of the left one are discharged by the named precondition that merge is only applied to similar operands, similarity implying equal lengths at every nesting level (AG-merge, EQ-lift, EQ-key), likewise Stack.less (LX-len). Not decided: reader cursor upper bounds (relational), general upper bounds, linear time.",
 		"stdlib functions in the read-only table do not panic on any input (regexp, strconv, bytes, strings, net/url, go/parser, html/template)")
 	p("C04", []RuleSel{
 		{"AG", []string{"AG-*"}},
